@@ -7,7 +7,8 @@ CONFIG = {
         "idle_model_trace_ok", "accepted_trace_invariant", "clean_exclusive", "use_implies_cleaned",
         "clean_at_transitions", "no_start_after_failed_clean", "panic_only_without_users", "no_panic",
         "dirs_model_trace_ok", "dir_removed_on_every_path", "last_close_empties_root", "failed_get_leaves_nothing",
-        "names_unique", "released_once",
+        "names_unique", "released_once", "existing_name_refused", "name_in_use_refused", "handed_out_fresh",
+        "close_keeps_others",
     ],
     "harnesses": [
         {"cmd": "idle", "cases_quick": 400, "cases_thorough": 8000, "shards_quick": 8, "shards_thorough": 32, "race": True},
